@@ -838,7 +838,8 @@ pub fn run_check(check: &dyn Check, tier: Tier, seed: u64, runs_override: Option
         "wall_s": wall,
         "violations": violations,
     });
-    let edir = root.join("evidence");
+    // sensitivity runs against deliberately broken trees write their evidence elsewhere
+    let edir = std::env::var("VERIF_EVIDENCE_DIR").map(PathBuf::from).unwrap_or_else(|_| root.join("evidence"));
     let _ = std::fs::create_dir_all(&edir);
     if let Err(e) = std::fs::write(edir.join(format!("{}.json", id)), serde_json::to_string_pretty(&ev).unwrap()) {
         eprintln!("HARNESS-ERROR: cannot write evidence: {}", e);
